@@ -15,3 +15,13 @@ const (
 	Metric   Scale = "metric"
 	Imperial Scale = "imperial"
 )
+
+// Exactness has no zero constant; it is reached from the root package through
+// two aliases.
+type Exactness int
+
+const (
+	Rough Exactness = iota + 1
+	Close
+	Sharp
+)
